@@ -672,3 +672,63 @@ Proof.
   destruct (new_cmd (cx_name (compile c)) None [] (cx_main (compile c)) (cx_extra (compile c)) H0) as [top H] eqn:E. cbn [snd].
   eapply OrdH_new_cmd; [exact E | apply OrdH_H0].
 Qed.
+
+(* ---------- a hosted command that reports Pending is quiet and its host is subscribed ---------- *)
+From Crux Require Import Rt.Silent.
+Lemma suffix_of_nil {A} (l : list A) : is_suffix l [] -> l = [].
+Proof. intros [pre E]. symmetry in E. apply app_eq_nil in E. tauto. Qed.
+
+(* the settle hidden in is_done() at the end of poll_next adds no output: either the command has been aborted
+   (its queues can only shrink) or its own queues are empty and there is nothing to run *)
+Lemma second_settle_no_output fuel x H1 H2 :
+  x < length (cmds H1) -> c_evs (gcmd x H1) = [] -> c_eff (gcmd x H1) = [] ->
+  (was_aborted x H1 = false -> c_ready (gcmd x H1) = [] /\ c_spawnq (gcmd x H1) = []) ->
+  settle fuel x H1 = Some H2 ->
+  c_evs (gcmd x H2) = [] /\ c_eff (gcmd x H2) = [] /\
+  (was_aborted x H1 = false -> c_ready (gcmd x H2) = [] /\ c_spawnq (gcmd x H2) = []).
+Proof.
+  intros L EV EF Qu E. destruct (was_aborted x H1) eqn:A.
+  - destruct (aborted_outputs_only_shrink_settle x fuel x H1 H2 L A E) as (S1 & S2).
+    rewrite EF in S1. rewrite EV in S2. split; [apply suffix_of_nil; exact S2 | split; [apply suffix_of_nil; exact S1 | discriminate]].
+  - destruct (Qu eq_refl) as (Er & Es).
+    destruct fuel as [|f]; [discriminate|].
+    unfold settle in E. cbn [funs step_funs rsettle] in E. unfold settle_body in E. rewrite A in E.
+    destruct f as [|f']; [discriminate|]. cbn [funs step_funs rloop] in E. unfold loop_body in E.
+    rewrite Es in E. cbn [fold_left] in E.
+    assert (Er' : c_ready (gcmd x (ucmd x (set_spawnq []) H1)) = []) by (rewrite gcmd_ucmd_same; destruct (gcmd x H1); exact Er).
+    rewrite Er' in E. assert (X : ucmd x (set_spawnq []) H1 = H2) by congruence. subst H2.
+    rewrite gcmd_ucmd_same. destruct (gcmd x H1); cbn in *. repeat split; auto.
+Qed.
+
+(* When Stream::poll_next of command x answers Pending to its host (waker w): x has no pending output, x's own
+   ready queue and spawn queue are empty (unless x has been aborted: then its tasks are gone), and x's cell still
+   holds w or w has been woken - so whatever happens to x later either finds the host subscribed (a wake queues
+   the host's task: Chain.wake_queues_task) or the host is queued already.  One layer of "a call runs to
+   quiescence and no wake-up is lost between layers". *)
+Theorem poll_next_pending_quiet_and_subscribed : forall fuel x' w H H',
+  OrdH H -> S x' < length (cmds H) -> poll_next (S fuel) (S x') w H = Some (PNPending, H') ->
+  c_evs (gcmd (S x') H') = [] /\ c_eff (gcmd (S x') H') = [] /\
+  (was_aborted (S x') H' = false -> c_ready (gcmd (S x') H') = [] /\ c_spawnq (gcmd (S x') H') = []) /\
+  Q (S x') w H' /\ OrdH H'.
+Proof.
+  intros fuel x' w H H' O L E.
+  destruct (specH_all (S fuel)) as (_ & Sn & _).
+  pose proof E as E0. unfold poll_next in E0.
+  destruct (Sn x' w (S x') w H PNPending H' (Nat.lt_succ_diag_r x') O E0) as (S1 & Qx).
+  unfold poll_next in E. cbn [funs step_funs rpoll_next] in E. unfold poll_next_body in E.
+  set (x := S x') in *. set (H0' := ucmd x (set_atomic (Some w)) H) in *.
+  assert (L0 : x < length (cmds H0')) by (unfold H0', ucmd; simpl; pose proof (length_updd cmd0 x (set_atomic (Some w)) (cmds H)); lia).
+  destruct (rsettle (funs fuel) x H0') as [H1|] eqn:E1; [|discriminate].
+  assert (L1 : x < length (cmds H1)) by (pose proof (pm_cmds _ _ (perm_settle fuel _ _ _ E1)); lia).
+  destruct (c_evs (gcmd x H1)) as [|e rest] eqn:EV1; [|discriminate].
+  destruct (c_eff (gcmd x H1)) as [|e rest] eqn:EF1; [|discriminate].
+  destruct (rsettle (funs fuel) x H1) as [H2|] eqn:E2; [|discriminate].
+  assert (Qu : was_aborted x H1 = false -> c_ready (gcmd x H1) = [] /\ c_spawnq (gcmd x H1) = []).
+  { intros A1. apply (settle_quiescent fuel x H0' H1); [|exact E1].
+    eapply was_aborted_false_back; [exact L0 | apply (proj1 (proj2 (proj2 (frame_meta fuel))) _ _ _ E1) | exact A1]. }
+  destruct (second_settle_no_output fuel x H1 H2 L1 EV1 EF1 Qu E2) as (EV2 & EF2 & Qu2).
+  rewrite EF2, EV2 in E.
+  assert (X : H2 = H') by (destruct (c_len (gcmd x H2) =? 0); [discriminate | congruence]). subst H'.
+  split; [exact EV2 | split; [exact EF2 | split; [|split; [apply Qx; reflexivity | apply (St_ord _ _ _ _ S1 O)]]]].
+  intros A2. apply Qu2. eapply was_aborted_false_back; [exact L1 | apply (proj1 (proj2 (proj2 (frame_meta fuel))) _ _ _ E2) | exact A2].
+Qed.
